@@ -38,6 +38,7 @@ FLOORS = {'UNIFORM': 30, 'FRAME': 3, 'CONCAT': 8, 'REPEAT': 3, 'ADJUST': 4}
 
 def run(ctx):
   reversed_rejected(ctx, 'ADJUST/reversed-rejected')
+  no_negative_event_stored(ctx, 'ADJUST/no-negative-event-stored')
   no_zero_shift(ctx, 'CONCAT/no-zero-shift')
   tp = cov.time_paths(ctx.S)
   ctx.require(len(tp) >= 10, 'schema lists only %d time-bearing paths' % len(tp))
@@ -134,6 +135,40 @@ def reversed_rejected(ctx, rule):
     ctx.ob(rule, fi, r, False, 'with a minimum duration given, a note whose adjusted end lies before its adjusted start does not reach %s (its conditions: %s): the reversed note is padded to the '
            'minimum duration and returned instead of being rejected' % (norm_text(r)[:50], ' and '.join(('' if p else 'not ') + '(' + norm_text(t) + ')' for t, p in rel)[:200]),
            construct=cons, definite=True)
+
+
+def no_negative_event_stored(ctx, rule):
+  """Location-independent scenario: "no time is negative" in what adjust_notesequence_times returns.  Every store of a mapped time
+  into <event>.time (all loops over non-note events) must be unreachable when the stored value is -1: the conditions on the path
+  to the store are evaluated with <stored value> = -1.  A guard that tests another quantity (the event's original time) leaves
+  the store reachable."""
+  from sa import scenario
+  fi = ctx.func(SL + ':adjust_notesequence_times')
+  fn = fi.node
+  cons = 'an event time mapped below zero is never stored'
+  n = 0
+  for lp in ast.walk(fn):
+    if not (isinstance(lp, ast.For) and isinstance(lp.target, ast.Name)) or norm_text(lp.iter).endswith('.notes'):
+      continue
+    v = lp.target.id
+    for st in U.walk_stmts(lp):
+      if not (isinstance(st, ast.Assign) and len(st.targets) == 1 and isinstance(st.targets[0], ast.Attribute) and st.targets[0].attr == 'time' and norm_text(st.targets[0].value) == v):
+        continue
+      n += 1
+      stored = norm_text(st.value)
+      conds = [(t, p) for t, p in U.path_conditions(fn, st, stop_at=lp) if any(norm_text(x) == stored for x in ast.walk(t))]
+      r = scenario.tv_all(conds, scenario.subst_of([(stored, '-1')])) if conds else True
+      if r is False:
+        ctx.ob(rule, fi, st, True, '%s is unreachable with %s == -1' % (norm_text(st), stored), construct=cons)
+      elif r is True:
+        ctx.ob(rule, fi, st, False, '%s is reached with %s == -1: no condition on its path tests the value that is stored%s, so an event moved before zero keeps a negative time in the result '
+               'instead of raising InvalidTimeAdjustmentError' % (norm_text(st), stored, '' if conds else ' (the guards in front of it test something else)'), construct=cons, definite=True)
+      else:
+        why = 'cannot classify: the conditions on %s before the store cannot be evaluated at -1' % stored
+        ctx.ob(rule, fi, st, False, why, construct=cons, unknown=why)
+  if n == 0:
+    why = 'cannot classify: no store into <event>.time found in the loops over the non-note events'
+    ctx.ob(rule, fi, fn, False, why, construct=cons, unknown=why)
 
 
 def no_zero_shift(ctx, rule):
